@@ -98,6 +98,7 @@ def check(pid, tier, seed):
     bad = validate_scenarios(events, verdict, "C16", fp)
     n += settings_across_threads(exe, verdict)
     n += big_ids(exe, verdict)
+    n += dotdot_paths(exe, verdict)
     rc = verdict.finish()
     cov = {"states": mc.distinct, "transitions": mc.generated, "traces_validated_against_impl": n - bad,
            "evaluations": n * 2, "distinct_nontrivial": nn,
@@ -162,6 +163,42 @@ def big_ids(exe, verdict):
                               "required %s id %d: reads of [a root-owned file, a file of that %s, a tree whose drop-in is root-owned, the root-owned file after reset] -> %s, expected %s" % (which, rid, which, got, want))
         else:
             ok += 1
+    return ok
+
+
+def dotdot_paths(exe, verdict):
+    """file and directory arguments with a `..` component behind a component that is a symbolic link to a directory: the file the
+    restrictions are checked on is the file that is read - the one the operating system reaches by that name, not the one a
+    textual clean-up of the name would reach.  Two trees: the name leads to a good file while the textually "cleaned" name would
+    lead to a forbidden one (link / foreign owner) - read, with the good content; and the other way round - refused."""
+    R = ROOT + "/dotdot"
+    ok = 0
+    for rule, setter, code in (("nosym", "followsymlinks 0", "ECONF_ERROR_FILE_IS_SYM_LINK"), ("owner", "requireowner 0", "ECONF_WRONG_OWNER")):
+        for good_by_os in (True, False):
+            # <R>/cur -> <R>/real/sub, so <R>/cur/../usr is <R>/real/usr for the operating system and <R>/usr after a textual clean-up
+            os_dir, txt_dir = R + "/real/usr", R + "/usr"
+            good_dir, bad_dir = (os_dir, txt_dir) if good_by_os else (txt_dir, os_dir)
+            sc = ["rm %s" % hx(R), "mkdir %s" % hx(R + "/real/sub"), "symlink %s %s" % (hx(R + "/real/sub"), hx(R + "/cur")),
+                  "file %s %s" % (hx(good_dir + "/cfg.conf"), hx("key=good\n")), "file %s %s" % (hx(good_dir + "/cfg.conf.d/x.conf"), hx("extra=good\n"))]
+            if rule == "nosym":
+                sc += ["file %s %s" % (hx(R + "/evil/main"), hx("key=evil\n")), "file %s %s" % (hx(R + "/evil/x"), hx("extra=evil\n")), "mkdir %s" % hx(bad_dir + "/cfg.conf.d"),
+                       "symlink %s %s" % (hx(R + "/evil/main"), hx(bad_dir + "/cfg.conf")), "symlink %s %s" % (hx(R + "/evil/x"), hx(bad_dir + "/cfg.conf.d/x.conf"))]
+            else:
+                sc += ["file %s %s" % (hx(bad_dir + "/cfg.conf"), hx("key=evil\n")), "file %s %s" % (hx(bad_dir + "/cfg.conf.d/x.conf"), hx("extra=evil\n")),
+                       "chown %s 54321 0" % hx(bad_dir + "/cfg.conf"), "chown %s 54321 0" % hx(bad_dir + "/cfg.conf.d/x.conf")]
+            arg = R + "/cur/../usr"
+            sc += [setter, "readfile 1 %s x3d x23" % hx(arg + "/cfg.conf"), "dump 1", "free 1",
+                   "readdirs 2 %s %s %s %s x3d x23" % (hx(R + "/none"), hx(arg), hx("cfg"), hx("conf")), "dump 2", "free 2", "resetsec"]
+            out = core.run_cases(exe, [("dd", sc)], jobs=1)["dd"]
+            want = ["ECONF_SUCCESS", "ECONF_SUCCESS"] if good_by_os else [code, code]
+            got = None if out["crash"] else [e["rc"] for e in out["ev"] if e["op"].startswith("read")]
+            vals = None if out["crash"] else sorted({core.uncodes(k["v"]) if isinstance(k["v"], list) else k["v"] for d in out["ev"] if d["op"] == "dump" and d.get("st") for s_ in d["st"]["secs"] for k in s_["keys"]})
+            if got != want or (good_by_os and vals != ["good"]):
+                verdict.violation("C16:dotdot:%s" % rule, {"kind": "script", "script": sc, "got": got, "want": want, "values": vals, "crash": out["crash"]},
+                                  "rule %s, argument <root>/cur/../usr with <root>/cur a link to <root>/real/sub (the operating system reaches the %s files, a textual clean-up of the name the %s ones): econf_readFile / econf_readDirs -> %s with values %s, expected %s%s" % (
+                                      rule, "good" if good_by_os else "forbidden", "forbidden" if good_by_os else "good", got, vals, want, " with the good values only" if good_by_os else ""))
+            else:
+                ok += 1
     return ok
 
 
